@@ -45,6 +45,9 @@ class StackStream(Stream):
             "upgrade": rng.random() < 0.2,
             "req": "foo" + rng.choice(["", "", ">=2.0", "<2.0", "==1.5", "!=3.0", ">=9"]),
         }
+        if rng.random() < 0.4:
+            # the solver asks one stack many times: earlier requests for the same project (other bounds) come first
+            case["before"] = ["foo" + rng.choice([">=2.0", "<2.0", "==1.5", "!=3.0", ">=9", "==2.5", ""]) for _ in range(rng.choice([1, 1, 2]))]
         return case
 
     def _build(self, case, d):
@@ -123,6 +126,12 @@ class StackStream(Stream):
                     queried.append(i)
                     return orig(r)
                 leaf.get_candidates = wrapped
+            for b in case.get("before", []):
+                try:
+                    repo.get_dist(parse_requirement(b))
+                except Exception:
+                    pass
+            del queried[:]
             try:
                 dist, _ = repo.get_dist(req)
                 origin = [i for i, l in enumerate(lv) if dist.origin is l]
@@ -202,6 +211,8 @@ class StackStream(Stream):
             fl.append("nobody-answers")
         if case["upgrade"] and case["solutions"]:
             fl.append("upgrade-exclusion")
+        if case.get("before"):
+            fl.append("earlier-requests-on-the-same-stack")
         if len(set(a[1] for a in r["alone"] if a[0] == "ok")) > 1:
             fl.append("different-versions-offered")
         return fl
